@@ -107,9 +107,12 @@ func Prec(op string) int {
 type Style struct {
 	Full    bool // parenthesise every binary sub-expression (else: minimal)
 	Upper   bool // upper-case word operators / keywords inside expressions
+	Mixed   bool // Capitalised word operators / keywords
+	Extra   int  // 1-based pre-order index of a sub-tree to wrap in a redundant pair of parentheses (0: none)
 	Tight   bool // no spaces around symbolic operators
 	Quote   byte // quote character for strings; 0 means '
 	WrapTop bool // parenthesise the top-level expression too
+	ctr     *int
 }
 
 func fmtFloatLit(f float64) string {
@@ -139,6 +142,8 @@ func (e *Expr) isWordOp() bool {
 func (e *Expr) Render() string { return e.RenderStyle(Style{Full: true}) }
 
 func (e *Expr) RenderStyle(st Style) string {
+	ctr := 0
+	st.ctr = &ctr
 	s := e.render(st, 0, false)
 	if st.WrapTop {
 		return "(" + s + ")"
@@ -149,6 +154,14 @@ func (e *Expr) RenderStyle(st Style) string {
 // render: parent precedence pp; right = this node is the right operand of a
 // left-associative parent of precedence pp.
 func (e *Expr) render(st Style, pp int, right bool) string {
+	if st.ctr != nil && st.Extra > 0 {
+		*st.ctr++
+		if *st.ctr == st.Extra {
+			st2 := st
+			st2.Extra = 0
+			return "(" + e.render(st2, 0, false) + ")"
+		}
+	}
 	q := st.Quote
 	if q == 0 {
 		q = '\''
@@ -156,6 +169,9 @@ func (e *Expr) render(st Style, pp int, right bool) string {
 	kw := func(w string) string {
 		if st.Upper {
 			return strings.ToUpper(w)
+		}
+		if st.Mixed {
+			return strings.ToUpper(w[:1]) + w[1:]
 		}
 		return w
 	}
